@@ -658,7 +658,13 @@ func (ex *Exec) makeSlice(c *ctx, x *ssa.MakeSlice, work *[]*ctx) bool {
 		mv := ex.maxValue(st, cp, uint64(ex.maxAlloc))
 		if mv > uint64(ex.maxAlloc) {
 			ex.obligations++
-			ex.recordViolation(st, "alloc", ex.pos(x), c.fn.String(), "allocation size not bounded by budget", tt.Ult(tt.BV(uint64(ex.maxAlloc), 64), cp))
+			// prefer a size the runtime itself refuses (deterministic native replay)
+			huge := tt.Ult(tt.BV(1<<50, 64), cp)
+			if ex.feasible(st, huge) == Sat {
+				ex.recordViolation(st, "alloc", ex.pos(x), c.fn.String(), "allocation size not bounded by budget", huge)
+			} else {
+				ex.recordViolation(st, "alloc", ex.pos(x), c.fn.String(), "allocation size not bounded by budget", tt.Ult(tt.BV(uint64(ex.maxAlloc), 64), cp))
+			}
 			// continue under the budget
 			ex.assume(st, tt.Ule(cp, tt.BV(uint64(ex.maxAlloc), 64)))
 			if ex.feasible(st) != Sat {
